@@ -387,7 +387,41 @@ impl Sink for TraceSink {
 // ------------------------------------------------------------------------------------------
 
 #[derive(Default, Clone)]
-struct RunOut { r1: Vec<(u32, i64)>, r2: Vec<(u32, i64)>, r3: Vec<(u32, i64)>, log1: Vec<ExecRecord>, log2: Vec<ExecRecord>, overlap: Vec<u32>, boundary: u64, panic: Option<String> }
+struct RunOut { r1: Vec<(u32, i64)>, r2: Vec<(u32, i64)>, r3: Vec<(u32, i64)>, log1: Vec<ExecRecord>, log2: Vec<ExecRecord>, overlap: Vec<u32>, boundary: u64, panic: Option<String>,
+    /** (`--state`) (op line, digest of every key) at every quiescent point: after the initial session, after every concurrent round (all tasks joined), after the edit session */ states: Vec<(String, String)> }
+
+/// `--state`: dump the digest of every key (eng::state_digest) after every session and after every concurrent round (all
+/// tasks joined: nothing is in flight), judge it with the state-invariant oracle and write it for `drv_engine inv`
+static STATE: AtomicBool = AtomicBool::new(false);
+static INV_LINES: Mutex<Vec<String>> = Mutex::new(Vec::new());
+async fn dump(engine: &Arc<Engine<MemCfg>>, p: &Program, opline: String, states: &mut Vec<(String, String)>) {
+    if !STATE.load(SeqCst) || p.nodes.len() > 64 || !is_acyclic(p) { return; }
+    let d = state_digest(engine, p).await;
+    states.push((opline, d));
+}
+fn render_session(ws: &[(u32, i64)]) -> String { let mut s = String::from("session"); for (k, v) in ws { s.push_str(&format!(" set {k} {v}")); } s }
+fn render_round(ts: &[Vec<u32>]) -> String { let mut ks: Vec<u32> = ts.iter().flatten().copied().collect(); ks.sort(); ks.dedup(); format!("round {}", join_u32(&ks)) }
+/// the expressions `drv_engine` parses (no Yield / Spec / Div nodes)
+fn plain_program(p: &Program) -> bool { p.render_lines().iter().all(|l| !l.split_whitespace().skip(4).any(|t| t == "Y" || t == "X" || t == "/")) }
+/// state-invariant oracle over the dumps of one run (`truths[i]` = committed inputs at dump i) + the block for `drv_engine inv`
+fn judge_states(ctx: &mut Ctx, p: &Program, states: &[(String, String)], truths: &[Truth], header: &str, text: &str) {
+    if states.is_empty() { return; }
+    ctx.inc("state_dumps_judged_by_the_state_invariant_oracle", states.len() as u64);
+    for ((op, d), t) in states.iter().zip(truths) {
+        let value_of = |k: u32| -> Option<i64> {
+            fn defined(p: &Program, t: &Truth, k: u32) -> bool { match p.kind(k) { Kind::Input => t.inputs.contains_key(&k), Kind::External => true, _ => { let mut r = vec![]; p.nodes[k as usize].expr.reads(&mut r); r.iter().all(|x| defined(p, t, *x)) } } }
+            if !defined(p, t, k) { return None; }
+            std::panic::catch_unwind(std::panic::AssertUnwindSafe(|| Scratch::new(p, t).value(k).ok())).ok().flatten()
+        };
+        for (which, desc) in state_invariant_check(p, d, &value_of) { ctx.fail(&format!("C02:state-invariant:{which}"), format!("{header}: after `{}` (all tasks joined, nothing in flight): {desc}", op.chars().take(60).collect::<String>()), text); }
+    }
+    if plain_program(p) {
+        let mut g = INV_LINES.lock().unwrap();
+        g.push(format!("case {}", p.nodes.len())); g.push(format!("# {header}"));
+        g.extend(p.render_lines());
+        for (op, d) in states { g.push(op.clone()); g.push(format!("#D {d}")); }
+    }
+}
 enum RunErr { Hang }
 
 fn panic_msg(p: Box<dyn std::any::Any + Send>) -> String { p.downcast_ref::<String>().cloned().or_else(|| p.downcast_ref::<&str>().map(|s| s.to_string())).unwrap_or_else(|| "<non-string payload>".into()) }
@@ -430,15 +464,21 @@ fn run_spec_inner(spec: &Spec, sink: Option<Arc<TraceSink>>, sh: Arc<Shared>) ->
             register_all(&mut engine, &sh);
             let engine = Arc::new(engine);
             { let mut s = engine.input_session().await; for (k, v) in &spec.init { s.set_input(In(*k), *v).await; } s.commit().await; }
+            // (no hook sink is installed in runs that dump states: the dump itself passes no hook, but keep the traces clean)
+            let st = sink.is_none();
+            if st { dump(&engine, &spec.program, render_session(&spec.init), &mut ro.states).await; }
             if let Some(s) = &sink { verif::set_sink(Some(s.clone())); }
             let mut panic = None;
             ro.r1 = do_round(&engine, &sh, &spec.seq, &spec.tasks, &mut panic).await;
             ro.log1 = std::mem::take(&mut *sh.log.lock().unwrap());
             if panic.is_none() {
+                if st { let mut ts = spec.tasks.clone(); ts.push(spec.seq.clone()); dump(&engine, &spec.program, render_round(&ts), &mut ro.states).await; }
                 if let Some(s) = &sink { ro.boundary = s.seq.load(SeqCst); s.boundary.store(ro.boundary, SeqCst); }
                 { let mut s = engine.input_session().await; for (k, v) in &spec.edit { s.set_input(In(*k), *v).await; } s.commit().await; }
+                if st { dump(&engine, &spec.program, render_session(&spec.edit), &mut ro.states).await; }
                 ro.r2 = do_round(&engine, &sh, &[], &spec.tasks2, &mut panic).await;
-                if panic.is_none() && !spec.tasks3.is_empty() { ro.r3 = do_round(&engine, &sh, &[], &spec.tasks3, &mut panic).await; }
+                if st && panic.is_none() { dump(&engine, &spec.program, render_round(&spec.tasks2), &mut ro.states).await; }
+                if panic.is_none() && !spec.tasks3.is_empty() { ro.r3 = do_round(&engine, &sh, &[], &spec.tasks3, &mut panic).await; if st && panic.is_none() { dump(&engine, &spec.program, render_round(&spec.tasks3), &mut ro.states).await; } }
                 ro.log2 = std::mem::take(&mut *sh.log.lock().unwrap());
             }
             ro.overlap = sh.overlap.lock().unwrap().clone();
@@ -590,6 +630,12 @@ fn eval_spec(ctx: &mut Ctx, spec: &Spec, sink: Option<Arc<TraceSink>>, tag: &str
             if v.max_fanin > 32 { ctx.inc(&format!("{tag}_runs_fanin_gt32"), 1); }
             if v.nontrivial { ctx.distinct.insert(hash_text(&text)); if ctx.samples.len() < 2 && text.len() < 3000 { ctx.samples.push(text.clone()); } }
             for (sig, desc) in &v.fails { ctx.inc(&format!("{tag}_fam_{}_hits:{sig}", spec.fam), 1); ctx.fail(sig, desc.clone(), &text); }
+            if !ro.states.is_empty() {
+                // dumps: after init, after round 1 | after edit, after round 2 [, after round 3]
+                let t1 = truth_of(&spec.init, None); let t2 = truth_of(&spec.edit, Some(&t1));
+                let truths: Vec<Truth> = (0..ro.states.len()).map(|i| if i < 2 { t1.clone() } else { t2.clone() }).collect();
+                judge_states(ctx, &spec.program, &ro.states, &truths, &format!("{tag} fam={} w={}", spec.fam, spec.w), &text);
+            }
             if ro.panic.is_some() { None } else { Some(ro) }
         }
     }
@@ -714,7 +760,7 @@ fn gen_mepoch(r: &mut Rng) -> MSpec {
 }
 
 #[derive(Default, Clone)]
-struct MRunOut { rounds: Vec<(Vec<(u32, i64)>, Vec<ExecRecord>)>, overlap: Vec<u32>, panic: Option<String> }
+struct MRunOut { rounds: Vec<(Vec<(u32, i64)>, Vec<ExecRecord>)>, overlap: Vec<u32>, panic: Option<String>, /** (`--state`) one entry per completed op */ states: Vec<(String, String)> }
 
 fn run_mspec_inner(spec: &MSpec, sh: Arc<Shared>) -> MRunOut {
     let rt = if spec.w == 0 { tokio::runtime::Builder::new_current_thread().enable_all().build().unwrap() }
@@ -731,11 +777,13 @@ fn run_mspec_inner(spec: &MSpec, sh: Arc<Shared>) -> MRunOut {
             let mut panic = None;
             for op in &spec.ops {
                 match op {
-                    MOp::Session(ws) => { let mut s = engine.input_session().await; for (k, v) in ws { s.set_input(In(*k), *v).await; } s.commit().await; ro.rounds.push((vec![], vec![])); }
+                    MOp::Session(ws) => { let mut s = engine.input_session().await; for (k, v) in ws { s.set_input(In(*k), *v).await; } s.commit().await; ro.rounds.push((vec![], vec![]));
+                        dump(&engine, &spec.program, render_session(ws), &mut ro.states).await; }
                     MOp::Round(ts) => {
                         let vals = do_round(&engine, &sh, &[], ts, &mut panic).await;
                         let log = std::mem::take(&mut *sh.log.lock().unwrap());
                         ro.rounds.push((vals, log));
+                        if panic.is_none() { dump(&engine, &spec.program, render_round(ts), &mut ro.states).await; }
                     }
                 }
                 if panic.is_some() { break; }
@@ -804,6 +852,11 @@ fn eval_mspec(ctx: &mut Ctx, spec: &MSpec, tag: &str) {
             let concurrent = spec.ops.iter().any(|o| matches!(o, MOp::Round(t) if t.len() >= 2));
             if sessions >= 3 && concurrent && ro.panic.is_none() { ctx.distinct.insert(hash_text(&text)); if ctx.samples.len() < 3 && text.len() < 2500 && spec.program.has_unordered() { ctx.samples.push(text.clone()); } }
             for (sig, desc) in &fails { ctx.inc(&format!("{tag}_src_{}_hits:{sig}", spec.src), 1); ctx.fail(sig, desc.clone(), &text); }
+            if !ro.states.is_empty() {
+                let mut t = Truth::default(); let mut truths = vec![];
+                for op in spec.ops.iter().take(ro.states.len()) { if let MOp::Session(ws) = op { for (k, v) in ws { t.inputs.insert(*k, *v); } } truths.push(t.clone()); }
+                judge_states(ctx, &spec.program, &ro.states, &truths, &format!("{tag} src={} w={}", spec.src, spec.w), &text);
+            }
         }
     }
 }
@@ -1298,6 +1351,7 @@ fn main() {
     let keep_going = a.rest.iter().any(|x| x == "--walk-keep-going");
     let n_me = flag("--n-me").and_then(|x| x.parse().ok()).unwrap_or(if thorough { 2500 } else { 250 });
     if let Some(ms) = flag("--wall-limit-ms").and_then(|x| x.parse().ok()) { WALL_LIMIT_MS.store(ms, SeqCst); }
+    if a.rest.iter().any(|x| x == "--state") { STATE.store(true, SeqCst); }
     if let Some(rp) = &a.replay {
         let text = std::fs::read_to_string(rp).unwrap();
         replay(&mut ctx, &mut out, &text);
@@ -1335,5 +1389,6 @@ fn main() {
     rep.push_str(&format!("\"traces\":{},\"trace_events\":{},", ctx.traces, ctx.trace_events));
     rep.push_str(&format!("\"oracle_failures\":[{}]", ctx.failures.iter().map(|f| format!("{{\"sig\":{},\"desc\":{},\"case\":{}}}", jstr(&f.sig), jstr(&f.desc), jstr(&f.case))).collect::<Vec<_>>().join(",")));
     rep.push('}');
+    if STATE.load(SeqCst) { std::fs::write(format!("{}/inv_ops.txt", a.out), INV_LINES.lock().unwrap().join("\n") + "\n").unwrap(); }
     out.finish(&rep);
 }
